@@ -323,6 +323,10 @@ func runC15(c *Check) {
 	c.unitFromDisplayedNodeValues()
 	c.signRestoredOnEveryReturn()
 	c.aliasMatchesAliasesOnly()
+	c.minimumSeededUnset()
+	// harmonising keeps each profile's totals: the factor is computed from the profile's own
+	// unit, read before it is overwritten with the common one (shared with C07-R9)
+	c.relabel(c.c07H, "C07-R9", "C15-R15", nil)
 }
 
 // R8: two value types with different units are compatible only when one and the same
